@@ -114,6 +114,8 @@ impl<'a> ChoiceIterator<'a> {
     }
 
     fn next_branch(&mut self) -> bool {
+        #[cfg(feature = "verif-hooks")]
+        crate::verif::step(crate::verif::site::CHOICE_BRANCH);
         // look for the next branch
         let next_op = self.branches_iter.next();
         if let Some(next_op) = next_op {
